@@ -94,9 +94,10 @@ fn schedule(period: u64, net_long: bool, offsets: Vec<i64>, small_vault: bool, s
 
 pub fn scenarios(seed: u64) -> Vec<Scenario> {
     let mut v = vec![];
-    let d = "two opposite positions of different size (net position of either sign, counter-size symbolic), PayFunding at enumerated block times around the funding time for periods {3600, 5400, 86400}, oracle price symbolic per settlement";
+    let d = "two opposite positions of different size (net position of either sign, counter-size symbolic), PayFunding at enumerated block times around the funding time for periods {3600, 5400, 18000, 50000, 86400, 172800}, oracle price symbolic per settlement";
     let buffer = |p: u64| (p / 2) as i64;
-    for period in [3600u64, 5400, 86_400] {
+    // (18000 s and 50000 s do not divide a day; 172800 s is longer than a day)
+    for period in [3600u64, 5400, 18_000, 50_000, 86_400, 172_800] {
         for (net_long, nn) in [(true, "netlong"), (false, "netshort")] {
             let tier = if period == 86_400 || net_long { Tier::Quick } else { Tier::Thorough };
             v.push(sc("C11", tier, &format!("c11.sched.p{}.{}.early-ontime", period, nn), d, 400, 120, schedule(period, net_long, vec![-1, 0], false, seed)));
